@@ -76,9 +76,9 @@ theorem sampleChecks_group_fails (P : Params) (h : Hdr) (gr : Grp) (s : OSample)
     | error e => rfl
     | ok g2 => rw [h2] at he; cases he
 
-/-- for every family type but info, the group the parser computes is the sample's labels without the
-distinguishing label (the spec's `groupLabels`) -/
-theorem groupOf_spec (s : OSample) (n t : Str) (g : Labels) (ht : t ≠ cs!"info") (h : groupOf s n t = .ok g) :
+/-- the group the parser computes is the sample's labels without the distinguishing label (the spec's `groupLabels`;
+for an info family the empty group) -/
+theorem groupOf_spec (s : OSample) (n t : Str) (g : Labels) (h : groupOf s n t = .ok g) :
     g = sortByKey (groupLabels n t s) := by
   unfold groupOf at h
   cases hg : groupForSample s n t with
@@ -91,10 +91,19 @@ theorem groupOf_spec (s : OSample) (n t : Str) (g : Labels) (ht : t ≠ cs!"info
       dsimp only at h
       obtain rfl := Except.ok.inj h
       congr 1
+      by_cases ht : t = cs!"info"
+      · subst ht
+        unfold groupForSample at hg
+        have : (cs!"info" == tInfo) = true := by decide
+        rw [if_pos this] at hg
+        obtain rfl := Option.some.inj (Except.ok.inj hg)
+        unfold groupLabels
+        rw [if_pos rfl]
       unfold groupForSample at hg
       have e0 : ¬ (t == tInfo) = true := by simpa [tInfo] using ht
       rw [if_neg e0] at hg
       unfold groupLabels
+      rw [if_neg ht]
       by_cases c1 : (t == tSummary && s.name == n) = true
       · rw [if_pos c1] at hg
         have c1' : t = cs!"summary" ∧ s.name = n := by simpa [tSummary] using c1
